@@ -206,6 +206,8 @@ Proof.
   specialize (Hq (rw_runs_one _ _ _ _ _ _ N1)). destruct Hq as (R & _).
   unfold rw_check. apply existsb_exists. exists (rw_after st e RwDone). split; [exact R | reflexivity].
 Qed.
+Lemma ro_uninit_io : forall (c : bool) w, rp_w_io (if c then rp_w_set_uninit w else w) = rp_w_io w.
+Proof. intros c w. destruct c; reflexivity. Qed.
 Lemma ro_exit_fsr_flt : forall w id, rp_flt (rp_w_io (rp_exit_fsr summ1 summN w id)) = 0 -> rp_flt (rp_w_io w) = 0.
 Proof.
   intros w id. unfold rp_exit_fsr. destruct (rp_sg_fsr (rp_get_sig (rp_c w) id)) as [fs |]; [| auto].
@@ -213,9 +215,7 @@ Proof.
   unfold rp_unfx. set (w1a := rp_commit w _).
   match goal with |- context [rp_put_sig (rp_c ?x)] => set (w1 := x) end.
   intros X. change (rp_flt (rp_w_io w1) = 0) in X.
-  assert (Y : rp_flt (rp_w_io w1a) = 0).
-  { unfold w1 in X. match type of X with context [if ?c then _ else _] => destruct c end; [| exact X].
-    change (rp_w_io (rp_w_set_uninit w1a)) with (rp_w_io w1a) in X. exact X. }
+  assert (Y : rp_flt (rp_w_io w1a) = 0) by (unfold w1 in X; rewrite ro_uninit_io in X; exact X).
   exact (proj1 (ry_commit_flt _ _ Y)).
 Qed.
 Lemma ro_exit_flt : forall w rc, rp_fault (rp_exit summ1 summN w rc) = 0 -> rp_flt (rp_w_io w) = 0.
